@@ -19,22 +19,25 @@ import (
 
 // Plan is one bounded instance of the composed model.
 type Plan struct {
-	Name     string   `json:"name"`
-	Runners  []string `json:"runners"`
-	Sets     []Cfg    `json:"sets"`
-	Budgets  []int    `json:"budgets"`
-	Crashes  bool     `json:"crashes"`
-	MaxMC    int      `json:"maxMC"`
-	MaxSets  int      `json:"maxSets"`
-	MaxH     int      `json:"maxH"`
-	Delta    int      `json:"delta"`
-	Lag      int      `json:"lag"`
-	Live     []string `json:"live"`
-	LastView bool     `json:"lastView"` // one history per (state, last op) instead of one per state
-	MaxBeh   int      `json:"maxBeh"`
-	Liveness bool     `json:"liveness"` // check G4 on SpecLive (finite without constraint)
-	SimNum   int      `json:"simNum"`   // random walks instead of the exhaustive search
-	SimDepth int      `json:"simDepth"`
+	Name     string          `json:"name"`
+	Runners  []string        `json:"runners"`
+	Sets     []Cfg           `json:"sets"`
+	Budgets  []int           `json:"budgets"`
+	Crashes  bool            `json:"crashes"`
+	MaxMC    int             `json:"maxMC"`
+	MaxSets  int             `json:"maxSets"`
+	MaxH     int             `json:"maxH"`
+	Delta    int             `json:"delta"`
+	Lag      int             `json:"lag"`
+	Live     []string        `json:"live"`
+	LastView bool            `json:"lastView"` // one history per (state, last op) instead of one per state
+	MaxBeh   int             `json:"maxBeh"`
+	Liveness bool            `json:"liveness"` // check G4 on SpecLive (finite without constraint)
+	LiveSets []Cfg           `json:"liveSets"` // keyper-set candidates of the liveness run (default: Sets)
+	Sharp    bool            `json:"sharp"`    // also check G4_LiveStartSharp (no environment assumption, mute keypers excused)
+	Witness  map[string][]Op `json:"witness"`  // fixed histories that are always replayed (observation name -> ops)
+	SimNum   int             `json:"simNum"`   // random walks instead of the exhaustive search
+	SimDepth int             `json:"simDepth"`
 }
 
 func strSet(xs []string) string {
@@ -91,7 +94,11 @@ func (p Plan) mcCfg(emit bool, live bool) string {
 	s := p.constText() + fmt.Sprintf("  Runners <- cRunners\n  SetCands <- cSetCands\n  Budgets <- cBudgets\n  Crashes = %s\n  MaxMC = %d\n  MaxSets = %d\n  MaxH = %d\n  Live <- cLive\n  Emit = %s\n",
 		boolTLA(p.Crashes), p.MaxMC, p.MaxSets, p.MaxH, boolTLA(emit))
 	if live {
-		return s + "SPECIFICATION SpecLive\nPROPERTY G4_LiveAccept\nPROPERTY G4_LiveStart_ModuloKnown\nCHECK_DEADLOCK FALSE\n"
+		s += "SPECIFICATION SpecLive\nPROPERTY G4_LiveAccept\nPROPERTY G4_LiveStart\n"
+		if p.Sharp {
+			s += "PROPERTY G4_LiveStartSharp\n"
+		}
+		return s + "CHECK_DEADLOCK FALSE\n"
 	}
 	view := "ViewS"
 	if p.LastView {
@@ -102,20 +109,21 @@ func (p Plan) mcCfg(emit bool, live bool) string {
 
 // Gen is what TLC produced for one plan.
 type Gen struct {
-	Plan       Plan
-	Consts     Consts
-	Alphabet   []Op
-	Behaviours [][]int
-	KnownHists [][]int // histories on which a listed finding shows at the spec level
-	States     int
-	Distinct   int
-	Depth      int
-	Wall       float64
-	SpecViol   string
-	SpecCex    []int
-	LiveStates int
-	LiveWall   float64
-	LiveViol   string
+	Plan         Plan
+	Consts       Consts
+	Alphabet     []Op
+	Behaviours   [][]int
+	KnownHists   [][]int // histories on which an observation (GObs) shows at the spec level
+	States       int
+	Distinct     int
+	Depth        int
+	Wall         float64
+	SpecViol     string
+	SpecCex      []int
+	LiveStates   int
+	LiveWall     float64
+	LiveViol     string
+	ForceRestart *bool // replay mode: restart mode of the recorded run
 }
 
 func parseHists(raw []string) ([][]int, error) {
@@ -139,11 +147,31 @@ func parseHists(raw []string) ([][]int, error) {
 
 // Generate model-checks the plan (G1 G2 G3 as action properties, G5 as invariant, G4 as temporal
 // properties under fairness) and collects the printed behaviours.
-func Generate(c *core.Ctx, p Plan) (*Gen, error) {
+func Generate(c *core.Ctx, p Plan, workers int) (*Gen, error) {
 	mod, body := p.module("MC")
-	workers := c.Workers
 	if workers > 8 {
 		workers = 8
+	}
+	if workers < 1 {
+		workers = 1
+	}
+	// the liveness run (SpecLive, frozen bookkeeping) does not depend on the safety run
+	type liveRes struct {
+		res *tlc.Result
+		err error
+	}
+	liveCh := make(chan liveRes, 1)
+	if p.Liveness {
+		go func() {
+			lp := p
+			if len(p.LiveSets) > 0 {
+				lp.Sets = p.LiveSets
+			}
+			lmod, lbody := lp.module("ML")
+			lres, err := tlc.Run(tlc.Opts{Module: lmod, CfgText: lp.mcCfg(false, true), Workers: max(2, workers/2), Timeout: 30 * time.Minute, HeapGB: 12,
+				Files: map[string][]byte{lmod + ".tla": lbody}})
+			liveCh <- liveRes{lres, err}
+		}()
 	}
 	opts := tlc.Opts{Module: mod, CfgText: p.mcCfg(true, false), Workers: workers, Timeout: 40 * time.Minute, HeapGB: 12,
 		Files: map[string][]byte{mod + ".tla": body}}
@@ -183,12 +211,12 @@ func Generate(c *core.Ctx, p Plan) (*Gen, error) {
 	if g.KnownHists, err = parseHists(res.Tagged["K"]); err != nil {
 		return nil, err
 	}
-	if p.Liveness && g.SpecViol == "" {
-		lres, err := tlc.Run(tlc.Opts{Module: mod, CfgText: p.mcCfg(false, true), Workers: workers, Timeout: 30 * time.Minute, HeapGB: 12,
-			Files: map[string][]byte{mod + ".tla": body}})
-		if err != nil {
-			return nil, err
+	if p.Liveness {
+		lr := <-liveCh
+		if lr.err != nil {
+			return nil, lr.err
 		}
+		lres := lr.res
 		g.LiveStates, g.LiveWall = lres.Distinct, lres.Wall.Seconds()
 		if lres.Violation {
 			g.LiveViol = lres.ViolatedWhat
@@ -272,14 +300,14 @@ func Validate(p Plan, trace []byte) (*VResult, error) {
 
 // Finding is one monitor failure on an observed line.
 type Finding struct {
-	Monitor string  `json:"monitor"`
-	Tag     string  `json:"tag"` // known-finding tag computed by the trace spec ("" = unexplained)
-	Side    string  `json:"side"` // "keyper" (KeyperGovTrace) | "app" (ShuttermintTrace)
-	Plan    string  `json:"plan"`
-	Hist    []int   `json:"hist"`
-	Restart bool    `json:"restart"`
-	Line    any     `json:"line"`
-	Ops     []Op    `json:"ops"`
+	Monitor string `json:"monitor"`
+	Kind    string `json:"kind"` // "violation" (C11 monitor on the application side) | "failed" (G1-G4 monitor) | "observation" (GObs)
+	Side    string `json:"side"` // "keyper" (KeyperGovTrace) | "app" (ShuttermintTrace)
+	Plan    string `json:"plan"`
+	Hist    []int  `json:"hist"`
+	Restart bool   `json:"restart"`
+	Line    any    `json:"line"`
+	Ops     []Op   `json:"ops"`
 }
 
 // Outcome aggregates replay + validation of one plan.
@@ -302,7 +330,7 @@ type Outcome struct {
 	Accepted  int
 	Started   int
 	Restarts  int
-	WitnessOK map[string]bool // tag -> the witness of the listed finding still shows it
+	WitnessOK map[string]bool // observation name -> its fixed witness history still shows it
 }
 
 func opsOf(alphabet []Op, hist []int) []Op {
@@ -349,13 +377,44 @@ func pick(c *core.Ctx, g *Gen, witnesses [][]int) [][]int {
 		maxb = append(maxb, b)
 	}
 	if g.Plan.MaxBeh > 0 && len(maxb) > g.Plan.MaxBeh {
+		// stratified by the keyper sets that appear in the history (every candidate class must be
+		// exercised on the real code); inside a stratum half of the quota goes to the longest
+		// histories, the other half is uniform
 		rng := rand.New(rand.NewSource(c.Seed + 17))
-		rng.Shuffle(len(maxb), func(i, j int) { maxb[i], maxb[j] = maxb[j], maxb[i] })
-		// half of the sample: the longest histories; the other half: uniform
-		half := g.Plan.MaxBeh / 2
-		rest := append([][]int{}, maxb[half:]...)
-		sort.SliceStable(rest, func(i, j int) bool { return len(rest[i]) > len(rest[j]) })
-		maxb = append(maxb[:half:half], rest[:g.Plan.MaxBeh-half]...)
+		groups := map[string][][]int{}
+		var keys []string
+		for _, b := range maxb {
+			var ks []int
+			for _, i := range b {
+				if i >= 1 && i <= len(g.Alphabet) && g.Alphabet[i-1].Op == "set" {
+					ks = append(ks, i)
+				}
+			}
+			sort.Ints(ks)
+			k := fmt.Sprint(ks)
+			if _, ok := groups[k]; !ok {
+				keys = append(keys, k)
+			}
+			groups[k] = append(groups[k], b)
+		}
+		sort.Strings(keys)
+		quota := g.Plan.MaxBeh / len(keys)
+		if quota < 2 {
+			quota = 2
+		}
+		var chosen [][]int
+		for _, k := range keys {
+			grp := groups[k]
+			rng.Shuffle(len(grp), func(i, j int) { grp[i], grp[j] = grp[j], grp[i] })
+			if len(grp) > quota {
+				half := quota / 2
+				rest := append([][]int{}, grp[half:]...)
+				sort.SliceStable(rest, func(i, j int) bool { return len(rest[i]) > len(rest[j]) })
+				grp = append(grp[:half:half], rest[:quota-half]...)
+			}
+			chosen = append(chosen, grp...)
+		}
+		maxb = chosen
 	}
 	out := [][]int{}
 	if len(g.SpecCex) > 0 {
@@ -364,7 +423,9 @@ func pick(c *core.Ctx, g *Gen, witnesses [][]int) [][]int {
 	out = append(out, witnesses...)
 	if len(g.KnownHists) > 0 {
 		kh := append([][]int{}, g.KnownHists...)
-		sort.Slice(kh, func(i, j int) bool { return len(kh[i]) < len(kh[j]) || (len(kh[i]) == len(kh[j]) && lessInts(kh[i], kh[j])) })
+		sort.Slice(kh, func(i, j int) bool {
+			return len(kh[i]) < len(kh[j]) || (len(kh[i]) == len(kh[j]) && lessInts(kh[i], kh[j]))
+		})
 		n := 3
 		if len(kh) < n {
 			n = len(kh)
@@ -407,7 +468,11 @@ func ReplayAndValidate(c *core.Ctx, g *Gen, witnesses map[string][]int) (*Outcom
 			sem <- struct{}{}
 			defer func() { <-sem }()
 			// every second behaviour: each keyper process is re-created before each of its iterations
-			results[i] = Execute(g.Consts, g.Alphabet, beh[i], c.Seed*1000003+int64(i), i+1, (int64(i)+c.Seed)%2 == 1)
+			restart := (int64(i)+c.Seed)%2 == 1
+			if g.ForceRestart != nil {
+				restart = *g.ForceRestart
+			}
+			results[i] = Execute(g.Consts, g.Alphabet, beh[i], c.Seed*1000003+int64(i), i+1, restart)
 		}(i)
 	}
 	wg.Wait()
@@ -517,10 +582,7 @@ func ReplayAndValidate(c *core.Ctx, g *Gen, witnesses map[string][]int) (*Outcom
 			}
 			n, _ := v[0].(float64)
 			m, _ := v[1].(string)
-			f := Finding{Monitor: m, Side: side, Plan: g.Plan.Name}
-			if i := strings.Index(m, "@"); i >= 0 {
-				f.Monitor, f.Tag = m[:i], m[i+1:]
-			}
+			f := Finding{Monitor: m, Side: side, Plan: g.Plan.Name, Kind: "failed"}
 			if side == "keyper" {
 				l := get(int(n))
 				r := results[l.Run-1]
@@ -540,9 +602,10 @@ func ReplayAndValidate(c *core.Ctx, g *Gen, witnesses map[string][]int) (*Outcom
 		}
 		for _, v := range ch.vr.Known {
 			if f, ok := mk(v, "keyper"); ok {
+				f.Kind = "observation"
 				out.Findings = append(out.Findings, f)
-				if tag, isW := wtag[fmt.Sprint(f.Hist)]; isW && tag == f.Tag {
-					out.WitnessOK[tag] = true
+				if name, isW := wtag[fmt.Sprint(f.Hist)]; isW && name == f.Monitor {
+					out.WitnessOK[name] = true
 				}
 			}
 		}
@@ -559,6 +622,7 @@ func ReplayAndValidate(c *core.Ctx, g *Gen, witnesses map[string][]int) (*Outcom
 				continue
 			}
 			if strings.HasPrefix(f.Monitor, "C11_") {
+				f.Kind = "violation"
 				out.Findings = append(out.Findings, f)
 			} else {
 				out.Notes = append(out.Notes, fmt.Sprintf("monitor %s of another property failed on the application side, history %v", f.Monitor, f.Hist))
@@ -644,43 +708,67 @@ func corruptTrace(trace []byte, what string) []byte {
 
 var (
 	all4   = []string{"a1", "a2", "a3", "a4"}
-	setV1  = Cfg{Keypers: all4, Thr: 2, Act: 2, Idx: 1}                           // valid, the outsider a4 joins
-	setGap = Cfg{Keypers: all4, Thr: 2, Act: 2, Idx: 2}                           // index gap (valid once index 1 exists)
-	setT0  = Cfg{Keypers: all4, Thr: 0, Act: 2, Idx: 1}                           // threshold 0
-	setTH  = Cfg{Keypers: all4, Thr: 5, Act: 2, Idx: 1}                           // threshold above the number of keypers
-	setDup = Cfg{Keypers: []string{"a1", "a1", "a2"}, Thr: 2, Act: 2, Idx: 1}     // duplicate member
-	setE   = Cfg{Keypers: []string{}, Thr: 1, Act: 2, Idx: 1}                     // no keypers
-	setLow = Cfg{Keypers: []string{"a1", "a2", "a4"}, Thr: 2, Act: 1, Idx: 2}     // activates before set 1
-	setV2  = Cfg{Keypers: []string{"a2", "a4"}, Thr: 1, Act: 3, Idx: 2}           // valid second set, a1 a3 leave
-	setEq  = Cfg{Keypers: []string{"a1", "a2", "a4"}, Thr: 2, Act: 2, Idx: 2}     // same activation as set 1 (valid)
+	setV1  = Cfg{Keypers: all4, Thr: 2, Act: 2, Idx: 1}                       // valid, the outsider a4 joins
+	setGap = Cfg{Keypers: all4, Thr: 2, Act: 2, Idx: 2}                       // index gap (valid once index 1 exists)
+	setT0  = Cfg{Keypers: all4, Thr: 0, Act: 2, Idx: 1}                       // threshold 0
+	setTH  = Cfg{Keypers: all4, Thr: 5, Act: 2, Idx: 1}                       // threshold above the number of keypers
+	setDup = Cfg{Keypers: []string{"a1", "a1", "a2"}, Thr: 2, Act: 2, Idx: 1} // duplicate member
+	setE   = Cfg{Keypers: []string{}, Thr: 1, Act: 2, Idx: 1}                 // no keypers
+	setLow = Cfg{Keypers: []string{"a1", "a2", "a4"}, Thr: 2, Act: 1, Idx: 2} // activates before set 1
+	setV2  = Cfg{Keypers: []string{"a2", "a4"}, Thr: 1, Act: 3, Idx: 2}       // valid second set, a1 a3 leave
+	setEq  = Cfg{Keypers: []string{"a1", "a2", "a4"}, Thr: 2, Act: 2, Idx: 2} // same activation as set 1 (valid)
+)
+
+func withAct(act uint64, cs ...Cfg) []Cfg {
+	out := []Cfg{}
+	for _, c := range cs {
+		c.Act = act
+		out = append(out, c)
+	}
+	return out
+}
+
+func itr(a string) Op { return Op{Op: "iter", A: a, Budget: BudgetAll} }
+
+var (
+	// a1 votes for set 1; set 2 (activating earlier) appears; a1 votes for it while set 1 is pending
+	// ("already voted"); a2's vote gets set 1 accepted; a1's vote for set 2 is now refused for ever
+	witMute = []Op{{Op: "end"}, {Op: "set", Set: setV1}, {Op: "adv"}, itr("a1"), {Op: "set", Set: setLow}, {Op: "adv"}, itr("a1"), itr("a2")}
+	// both report block 2 because of the genesis config; config 1 (activation 2) is accepted; at block
+	// 3 a1 reports again although its report 2 already counts for config 1
+	witDup = []Op{{Op: "end"}, {Op: "set", Set: setV1}, {Op: "adv"}, {Op: "adv"}, itr("a1"), itr("a2"), {Op: "end"}, {Op: "adv"}, itr("a1")}
 )
 
 func plansFor(thorough bool) []Plan {
-	d := func(q, t int) int {
-		if thorough {
-			return t
-		}
-		return q
-	}
 	three := []string{"a1", "a2", "a4"}
 	two := []string{"a1", "a2"}
-	ps := []Plan{
-		{Name: "one", Runners: three, Sets: []Cfg{setV1, setGap, setT0, setTH, setDup, setE}, Budgets: []int{BudgetAll}, MaxMC: 3, MaxSets: 1, MaxH: 30,
-			Delta: 1, Live: two, MaxBeh: d(60, 600)},
-		{Name: "partial", Runners: two, Sets: []Cfg{setV1}, Budgets: []int{0, 1, BudgetAll}, Crashes: true, MaxMC: 3, MaxSets: 1, MaxH: 30,
-			Delta: 1, Live: two, LastView: true, MaxBeh: d(60, 500), Liveness: true},
-		{Name: "two", Runners: two, Sets: []Cfg{setV1, setLow, setV2, setEq}, Budgets: []int{BudgetAll}, MaxMC: 4, MaxSets: 2, MaxH: 30,
-			Delta: 1, Live: two, MaxBeh: d(60, 600), Liveness: true},
+	all := []int{BudgetAll}
+	if !thorough {
+		return []Plan{
+			// every class of keyper set on its own; the outsider a4 runs a keyper and joins
+			// (quick tier: activation 1 and a main chain of 2 blocks instead of 2 and 3)
+			{Name: "one", Runners: three, Sets: withAct(1, setV1, setGap, setT0, setTH, setDup, setE), Budgets: all, MaxMC: 2, MaxSets: 1, MaxH: 30, Delta: 1, Live: two, MaxBeh: 48},
+			// partial sends (budget 0 = the node is unreachable), G4 under fairness
+			{Name: "base", Runners: two, Sets: []Cfg{setV1}, Budgets: []int{0, BudgetAll}, MaxMC: 3, MaxSets: 1, MaxH: 30, Delta: 1, Live: two, LastView: true, MaxBeh: 40, Liveness: true,
+				Witness: map[string][]Op{"G3_DuplicateReport": witDup}},
+			// the reply to an accepted broadcast is lost, the keyper restarts
+			{Name: "crash", Runners: two, Sets: withAct(1, setV1), Budgets: all, Crashes: true, MaxMC: 2, MaxSets: 1, MaxH: 30, Delta: 1, Live: two, MaxBeh: 40},
+			// two keyper sets, the second one activating before the first (GOV1)
+			{Name: "two", Runners: two, Sets: []Cfg{setV1, setLow}, Budgets: all, MaxMC: 3, MaxSets: 2, MaxH: 30, Delta: 1, Live: two, MaxBeh: 48,
+				Witness: map[string][]Op{"HeadOfLineBlocked": witMute}},
+		}
 	}
-	if thorough {
-		ps = append(ps,
-			Plan{Name: "four", Runners: all4, Sets: []Cfg{setV1, setDup}, Budgets: []int{BudgetAll}, MaxMC: 3, MaxSets: 1, MaxH: 30, Delta: 1, Live: two, MaxBeh: 500},
-			Plan{Name: "lag2", Runners: two, Sets: []Cfg{setV1}, Budgets: []int{BudgetAll}, MaxMC: 3, MaxSets: 1, MaxH: 7, Delta: 1, Lag: 2, Live: two, MaxBeh: 400},
-			Plan{Name: "two-three", Runners: three, Sets: []Cfg{setV1, setLow, setV2}, Budgets: []int{BudgetAll}, MaxMC: 4, MaxSets: 2, MaxH: 30, Delta: 1, Live: two, MaxBeh: 600},
-			Plan{Name: "delta0", Runners: two, Sets: []Cfg{setV1, setV2}, Budgets: []int{0, BudgetAll}, MaxMC: 4, MaxSets: 2, MaxH: 30, Delta: 0, Live: two, MaxBeh: 400},
-		)
+	return []Plan{
+		{Name: "one", Runners: three, Sets: []Cfg{setV1, setGap, setT0, setTH, setDup, setE}, Budgets: all, MaxMC: 3, MaxSets: 1, MaxH: 30, Delta: 1, Live: two, LastView: true, MaxBeh: 500},
+		{Name: "base", Runners: two, Sets: []Cfg{setV1}, Budgets: []int{0, 1, BudgetAll}, MaxMC: 3, MaxSets: 1, MaxH: 30, Delta: 1, Live: two, LastView: true, MaxBeh: 300, Liveness: true,
+			Witness: map[string][]Op{"G3_DuplicateReport": witDup}},
+		{Name: "crash", Runners: two, Sets: []Cfg{setV1}, Budgets: []int{0, 1, BudgetAll}, Crashes: true, MaxMC: 3, MaxSets: 1, MaxH: 30, Delta: 1, Live: two, LastView: true, MaxBeh: 500, Liveness: true},
+		{Name: "two", Runners: two, Sets: []Cfg{setV1, setLow, setV2, setEq}, Budgets: all, MaxMC: 4, MaxSets: 2, MaxH: 30, Delta: 1, Live: two, MaxBeh: 600,
+			Liveness: true, LiveSets: []Cfg{setV1, setLow, setV2}, Sharp: true, Witness: map[string][]Op{"HeadOfLineBlocked": witMute}},
+		{Name: "four", Runners: all4, Sets: []Cfg{setV1}, Budgets: all, MaxMC: 3, MaxSets: 1, MaxH: 30, Delta: 1, Live: two, MaxBeh: 500},
+		{Name: "lag2", Runners: two, Sets: []Cfg{setV1}, Budgets: all, MaxMC: 3, MaxSets: 1, MaxH: 8, Delta: 1, Lag: 2, Live: two, MaxBeh: 300},
+		{Name: "delta0", Runners: two, Sets: []Cfg{setV1, setV2}, Budgets: []int{0, BudgetAll}, MaxMC: 4, MaxSets: 2, MaxH: 30, Delta: 0, Live: two, MaxBeh: 400},
 	}
-	return ps
 }
 
 func assumptions() []string {
@@ -695,25 +783,20 @@ func assumptions() []string {
 
 // ---------------------------------------------------------------------------------------------
 // the check
+//
+// Verdict mapping of this growth stage (decided by the lead): VIOLATION property=C11 only when a
+// C11 monitor of ShuttermintProps fails on the real application under real keyper traffic (G5).
+// G1-G4 are extension properties of the keyper half: their failures, and the observations of
+// KeyperGovProps!GObs, are printed as `OBSERVATION gov: ...`, recorded in the evidence and do not
+// change the exit code. Pass-B mismatches are DRIFT. Infrastructure problems: exit 2.
 
-func knownByTag(known []core.Finding) map[string]core.Finding {
-	m := map[string]core.Finding{}
-	for _, k := range known {
-		if t, _ := k.Match["tag"].(string); t != "" {
-			m[t] = k
-		}
-	}
-	return m
-}
-
-func witnessHistory(alphabet []Op, raw []json.RawMessage) []int {
+func witnessHistory(alphabet []Op, ops []Op) []int {
 	var h []int
-	for _, r := range raw {
-		var o Op
-		if json.Unmarshal(r, &o) != nil {
-			return nil
-		}
+	for _, o := range ops {
 		o.Set = normCfg(o.Set)
+		if o.A == "" {
+			o.A = sm.NoAddr
+		}
 		found := 0
 		for i, a := range alphabet {
 			a.Set = normCfg(a.Set)
@@ -729,7 +812,7 @@ func witnessHistory(alphabet []Op, raw []json.RawMessage) []int {
 	return h
 }
 
-// ReplayFile is what a VIOLATION line points to.
+// ReplayFile is what a VIOLATION / OBSERVATION line points to.
 type ReplayFile struct {
 	Prop     string  `json:"prop"`
 	Family   string  `json:"family"`
@@ -740,41 +823,83 @@ type ReplayFile struct {
 	Finding  Finding `json:"finding"`
 }
 
+// Observation is one line of coverage.growth_keypergov.observations.
+type Observation struct {
+	Name   string   `json:"name"`
+	Kind   string   `json:"kind"` // failed | observation | model
+	Plan   string   `json:"plan"`
+	Count  int      `json:"count"`
+	After  []string `json:"first_after"`
+	Replay string   `json:"replay"`
+	Note   string   `json:"note"`
+}
+
+var obsNotes = map[string]string{
+	"G3_DuplicateReport":     "sendNewBlockSeen counts configs with last_block_seen <= activation < block while shuttermint counts a report r iff r >= activation: a config activating exactly at the last reported block is reported once more (harmless extra transaction)",
+	"HeadOfLineBlocked":      "the head of tendermint_outgoing_messages is a BatchConfig vote shuttermint can never accept; isRetrieable is constant true, so it is retried for ever and nothing behind it is sent: the keyper is mute (no BlockSeen, check-in, DKG message)",
+	"G4_Started_OutsideEnv":  "an accepted config is not started although a threshold of its predecessor's keypers runs; happens only outside the environment assumption (a keyper set activating before its predecessor), through HeadOfLineBlocked",
+	"G4_Accepted_OutsideEnv": "a valid next keyper set is not accepted although a threshold of the newest set runs; only outside the environment assumption, through HeadOfLineBlocked",
+}
+
 // Check runs the KeyperGov stage of C11.
 func Check(c *core.Ctx) int {
 	if c.Replay != "" {
 		return Replay(c)
 	}
-	known := knownByTag(core.LoadKnown().For(c.Prop))
 	var outs []*Outcome
 	violations := 0
 	leads := []string{}
 	mismatch := false
-	knownHits := map[string]int{}
-	witnessOK := map[string]bool{}
-	for _, p := range plansFor(c.Thorough()) {
-		c.Logf("plan %s: TLC on the composed model (runners %v, %d set candidates, budgets %v, crashes %v, lag %d)", p.Name, p.Runners, len(p.Sets), p.Budgets, p.Crashes, p.Lag)
-		g, err := Generate(c, p)
+	var observations []Observation
+	plans := plansFor(c.Thorough())
+	type genRes struct {
+		g   *Gen
+		err error
+	}
+	gens := make([]chan genRes, len(plans))
+	per := 8
+	if !c.Thorough() {
+		// quick tier: all model-checking runs at once, the eight workers shared between them
+		per = max(2, 8/len(plans))
+	}
+	var seq sync.Mutex
+	for i, p := range plans {
+		gens[i] = make(chan genRes, 1)
+		go func(i int, p Plan) {
+			if c.Thorough() {
+				seq.Lock()
+				defer seq.Unlock()
+			}
+			g, err := Generate(c, p, per)
+			gens[i] <- genRes{g, err}
+		}(i, p)
+	}
+	for i, p := range plans {
+		c.Logf("plan %s: TLC on the composed model (runners %v, %d set candidates, budgets %v, lost replies %v, lag %d)", p.Name, p.Runners, len(p.Sets), p.Budgets, p.Crashes, p.Lag)
+		gr := <-gens[i]
+		g, err := gr.g, gr.err
 		if err != nil {
 			fmt.Println("INCONCLUSIVE:", err)
 			return core.ExitInconclusive
 		}
-		c.Logf("plan %s: %d distinct states (%d generated, depth %d, %.1fs), %d behaviours printed, %d spec-level known-finding histories, specviol=%q; liveness: %d states %.1fs viol=%q",
+		c.Logf("plan %s: %d distinct states (%d generated, depth %d, %.1fs), %d behaviours printed, %d spec-level observation histories, specviol=%q; liveness: %d states %.1fs viol=%q",
 			p.Name, g.Distinct, g.States, g.Depth, g.Wall, len(g.Behaviours), len(g.KnownHists), g.SpecViol, g.LiveStates, g.LiveWall, g.LiveViol)
 		if g.SpecViol != "" {
 			leads = append(leads, p.Name+": "+g.SpecViol)
 		}
 		if g.LiveViol != "" {
 			leads = append(leads, p.Name+" (liveness): "+g.LiveViol)
+			observations = append(observations, Observation{Name: "G4_model", Kind: "model", Plan: p.Name, Count: 1,
+				Note: "TLC reports a G4 temporal property violated on the composed model under fairness: " + g.LiveViol})
+			fmt.Printf("OBSERVATION gov: G4 is violated on the composed MODEL of plan %s (%s); no history to replay\n", p.Name, g.LiveViol)
 		}
 		wit := map[string][]int{}
-		for tag, kf := range known {
-			if kf.Plan == p.Name && len(kf.Witness) > 0 {
-				if h := witnessHistory(g.Alphabet, kf.Witness); h != nil {
-					wit[tag] = h
-				} else {
-					c.Logf("known finding %s: witness ops are not in the alphabet of plan %s", kf.ID, p.Name)
-				}
+		for name, ops := range p.Witness {
+			if h := witnessHistory(g.Alphabet, ops); h != nil {
+				wit[name] = h
+			} else {
+				fmt.Printf("INCONCLUSIVE: the fixed witness %s of plan %s is not in the alphabet TLC printed\n", name, p.Name)
+				return core.ExitInconclusive
 			}
 		}
 		out, err := ReplayAndValidate(c, g, wit)
@@ -783,16 +908,15 @@ func Check(c *core.Ctx) int {
 			return core.ExitInconclusive
 		}
 		outs = append(outs, out)
-		c.Logf("plan %s: %d runs on the real code (%d with restarts), %d iterations (%d distinct), %d votes and %d reports scheduled, %d configs accepted, %d started; %d keyper lines + %d application lines validated; %d findings, %d drift",
+		c.Logf("plan %s: %d runs on the real code (%d with restarts), %d iterations (%d distinct), %d votes and %d reports scheduled, %d configs accepted, %d started; %d keyper lines + %d application lines validated; %d monitor results, %d drift",
 			p.Name, out.Runs, out.Restarts, out.Iters, out.Distinct, out.Votes, out.Seens, out.Accepted, out.Started, out.Lines, out.AppLines, len(out.Findings), len(out.Drift))
-		if out.Runs == 0 || out.Lines == 0 || out.Iters == 0 {
+		if out.Runs == 0 || out.Lines == 0 || out.Iters == 0 || out.AppLines == 0 {
 			fmt.Printf("INCONCLUSIVE: plan %s replayed nothing\n", p.Name)
 			return core.ExitInconclusive
 		}
-		for t, ok := range out.WitnessOK {
-			if ok {
-				witnessOK[t] = true
-			}
+		if out.Votes == 0 || out.Accepted == 0 {
+			fmt.Printf("INCONCLUSIVE: plan %s: the real keypers scheduled %d votes and shuttermint accepted %d configs (coverage collapsed)\n", p.Name, out.Votes, out.Accepted)
+			return core.ExitInconclusive
 		}
 		for _, d := range out.Drift {
 			fmt.Println("DRIFT", d)
@@ -800,62 +924,79 @@ func Check(c *core.Ctx) int {
 		for _, n := range out.Notes {
 			c.Logf("note: %s", n)
 		}
+		for name := range wit {
+			if !out.WitnessOK[name] {
+				c.Logf("note: the fixed history for %s (plan %s) no longer shows it", name, p.Name)
+			}
+		}
 		reported := 0
 		cexReproduced := false
+		byName := map[string]*Observation{}
+		var order []string
 		for _, f := range out.Findings {
-			if len(g.SpecCex) > 0 && fmt.Sprint(f.Hist) == fmt.Sprint(g.SpecCex) {
+			if len(g.SpecCex) > 0 && fmt.Sprint(f.Hist) == fmt.Sprint(g.SpecCex) && f.Kind != "observation" {
 				cexReproduced = true
 			}
-			if f.Tag != "" {
-				if _, listed := known[f.Tag]; listed {
-					knownHits[f.Tag]++
-					continue
+			if f.Kind == "violation" {
+				violations++
+				if reported < 4 {
+					path := c.WriteReplay(fmt.Sprintf("gov-%s-%d", p.Name, reported), ReplayFile{Prop: c.Prop, Family: "gov", Plan: p, Consts: g.Consts, Alphabet: g.Alphabet, Seed: c.Seed, Finding: f})
+					c.Violation(path, fmt.Sprintf("monitor %s of ShuttermintProps failed on the real application under real keyper traffic after %v (application line %v)",
+						f.Monitor, opsText(g.Alphabet, f.Hist), compact(f.Line)))
+					reported++
 				}
+				continue
 			}
-			violations++
-			if reported < 4 {
-				path := c.WriteReplay(fmt.Sprintf("gov-%s-%d", p.Name, reported), ReplayFile{Prop: c.Prop, Family: "gov", Plan: p, Consts: g.Consts, Alphabet: g.Alphabet, Seed: c.Seed, Finding: f})
-				what := fmt.Sprintf("KeyperGov monitor %s failed (%s side) after %v", f.Monitor, f.Side, opsText(g.Alphabet, f.Hist))
-				if f.Tag != "" {
-					what += fmt.Sprintf(" [matches the proposed known finding %s, which is not listed in known_findings.json]", f.Tag)
-				}
-				c.Violation(path, what)
-				reported++
+			o := byName[f.Monitor]
+			if o == nil {
+				o = &Observation{Name: f.Monitor, Kind: f.Kind, Plan: p.Name, After: opsText(g.Alphabet, f.Hist), Note: obsNotes[f.Monitor]}
+				o.Replay = c.WriteReplay(fmt.Sprintf("gov-%s-obs-%s", p.Name, f.Monitor), ReplayFile{Prop: c.Prop, Family: "gov", Plan: p, Consts: g.Consts, Alphabet: g.Alphabet, Seed: c.Seed, Finding: f})
+				byName[f.Monitor] = o
+				order = append(order, f.Monitor)
 			}
+			o.Count++
+		}
+		for _, name := range order {
+			o := byName[name]
+			what := "observed"
+			if o.Kind == "failed" {
+				what = "monitor FAILED"
+			}
+			fmt.Printf("OBSERVATION gov: %s %s on %d observed lines of plan %s, first after %v replay=%s\n", o.Name, what, o.Count, o.Plan, o.After, o.Replay)
+			if o.Note != "" {
+				fmt.Printf("  %s\n", o.Note)
+			}
+			observations = append(observations, *o)
 		}
 		if g.SpecViol != "" && !cexReproduced {
 			fmt.Printf("MODEL-MISMATCH (spec-level counterexample not reproduced on the code): plan %s %s hist %v\n", p.Name, g.SpecViol, g.SpecCex)
 			mismatch = true
 		}
 	}
-	for tag, n := range knownHits {
-		if n > 0 {
-			kf := known[tag]
-			if len(kf.Witness) > 0 && !witnessOK[tag] {
-				c.Logf("known finding %s matched %d observed failures but its witness no longer shows it", kf.ID, n)
-			}
-			core.PrintKnown(kf)
-		}
-	}
-	mergeEvidence(c, outs, violations, leads, knownHits)
+	mergeEvidence(c, outs, violations, leads, observations)
 	if violations > 0 {
 		return core.ExitViolation
 	}
 	if mismatch {
 		return core.ExitInconclusive
 	}
-	for _, l := range leads {
-		if strings.Contains(l, "(liveness)") {
-			fmt.Println("INCONCLUSIVE: G4 is violated on the composed model and no observed run shows it:", l)
-			return core.ExitInconclusive
-		}
-	}
 	fmt.Printf("OK property=%s stage=keypergov tier=%s\n", c.Prop, c.Tier)
 	return core.ExitOK
 }
 
+func compact(v any) string {
+	s := sm.Canon(v)
+	if len(s) > 400 {
+		s = s[:400] + "..."
+	}
+	return s
+}
+
 // mergeEvidence adds coverage.growth_keypergov to the existing evidence file of the property.
-func mergeEvidence(c *core.Ctx, outs []*Outcome, violations int, leads []string, knownHits map[string]int) {
+func mergeEvidence(c *core.Ctx, outs []*Outcome, violations int, leads []string, observations []Observation) {
+	if os.Getenv("VERIF_GOV_NOEVIDENCE") != "" {
+		return // mutation experiments on a scratch copy of the repository
+	}
 	path := "/verif/evidence/" + c.Prop + ".json"
 	b, err := os.ReadFile(path)
 	if err != nil {
@@ -882,19 +1023,23 @@ func mergeEvidence(c *core.Ctx, outs []*Outcome, violations int, leads []string,
 		plans = append(plans, map[string]any{"plan": o.Gen.Plan.Name, "runners": o.Gen.Plan.Runners, "keyper_set_candidates": o.Gen.Plan.Sets,
 			"budgets": o.Gen.Plan.Budgets, "lost_reply_iterations": o.Gen.Plan.Crashes, "max_main_chain": o.Gen.Plan.MaxMC, "max_new_sets": o.Gen.Plan.MaxSets,
 			"delta": o.Gen.Plan.Delta, "lag": o.Gen.Plan.Lag, "tlc_distinct_states": o.Gen.Distinct, "tlc_states_generated": o.Gen.States, "tlc_depth": o.Gen.Depth,
-			"tlc_wall_s": o.Gen.Wall, "behaviours_printed": len(o.Gen.Behaviours), "liveness_states": o.Gen.LiveStates, "liveness_wall_s": o.Gen.LiveWall,
+			"tlc_wall_s": o.Gen.Wall, "behaviours_printed": len(o.Gen.Behaviours), "liveness_checked": o.Gen.Plan.Liveness, "liveness_states": o.Gen.LiveStates, "liveness_wall_s": o.Gen.LiveWall,
 			"runs_replayed": o.Runs, "runs_with_restart_before_each_iteration": o.Restarts, "loop_iterations": o.Iters, "distinct_iterations": o.Distinct,
 			"votes_scheduled": o.Votes, "reports_scheduled": o.Seens, "configs_accepted": o.Accepted, "configs_started": o.Started,
 			"keyper_lines_validated": o.Lines, "application_lines_validated": o.AppLines, "drift": len(o.Drift)})
 	}
+	if observations == nil {
+		observations = []Observation{}
+	}
 	e.Coverage["growth_keypergov"] = map[string]any{
 		"module": "KeyperGov (specs/KeyperGov.tla, KeyperGovProps.tla, KeyperGovMC.tla, KeyperGovTrace.tla) composed with Shuttermint.tla",
-		"tier":   c.Tier, "seed": c.Seed, "wall_s": time.Since(c.Start).Seconds(), "violations": violations,
+		"tier":   c.Tier, "seed": c.Seed, "wall_s": time.Since(c.Start).Seconds(), "c11_violations": violations,
 		"states": states, "transitions": trans, "traces_validated_against_impl": runs, "evaluations": iters, "distinct_nontrivial": distinct,
 		"keyper_lines_validated": lines, "application_lines_validated": alines,
-		"rule": "TLC explores every interleaving of {main chain advances, a keyper set appears, keyper k runs one loop iteration with a send budget / a lost reply, a shuttermint block is closed} inside the plan's bounds with G1-G3 as action properties, the C11 monitors on every application call (G5) and G4 as temporal properties under fairness; it prints one history per distinct state; a seeded sample of the maximal histories (plus every spec-level lead and known-finding witness) is replayed on the real KeyperCore loop body + real app and continued with a fair schedule; " +
+		"verdict_mapping": "VIOLATION only for a C11 monitor of ShuttermintProps failing on the real application under real keyper traffic (G5); failures of the extension properties G1-G4 and the observations of KeyperGovProps!GObs are listed under observations and do not change the exit code; pass-B mismatches are drift",
+		"rule": "TLC explores every interleaving of {main chain advances, a keyper set appears, keyper k runs one loop iteration with a send budget / a lost reply, a shuttermint block is closed} inside the plan's bounds with G1-G3 as action properties, the C11 monitors on every application call (G5) and G4 as temporal properties under fairness; it prints one history per distinct state; a seeded sample of the maximal histories (plus every spec-level lead and the fixed observation witnesses) is replayed on the real KeyperCore loop body + real app and continued with a fair schedule; " +
 			"evaluations = loop iterations executed on the real code, distinct_nontrivial = distinct observed iterations (databases before/after each statement, messages, answers), every one validated by KeyperGovTrace (pass A G1-G4, pass B conformance) and every application call by ShuttermintTrace (C11 monitors, conformance)",
-		"plans": plans, "samples": samples, "spec_level_leads": leads, "known_finding_hits": knownHits, "assumptions": assumptions(),
+		"plans": plans, "samples": samples, "spec_level_leads": leads, "observations": observations, "assumptions": assumptions(),
 	}
 	if err := ev.Write(e); err != nil {
 		fmt.Fprintln(os.Stderr, "cannot write evidence:", err)
@@ -909,37 +1054,44 @@ func Replay(c *core.Ctx) int {
 		return core.ExitInconclusive
 	}
 	var rf ReplayFile
-	if err := json.Unmarshal(b, &rf); err != nil {
-		fmt.Println("INCONCLUSIVE:", err)
+	if err := json.Unmarshal(b, &rf); err != nil || rf.Family != "gov" {
+		fmt.Println("INCONCLUSIVE: not a replay file of the KeyperGov stage:", err)
 		return core.ExitInconclusive
 	}
 	g := &Gen{Plan: rf.Plan, Consts: rf.Consts, Alphabet: rf.Alphabet, Behaviours: [][]int{rf.Finding.Hist}}
 	g.Plan.MaxBeh = 0
 	c.Seed = rf.Seed
-	known := knownByTag(core.LoadKnown().For(rf.Prop))
-	for _, restart := range []bool{rf.Finding.Restart} {
-		_ = restart
-	}
+	g.ForceRestart = &rf.Finding.Restart
 	out, err := ReplayAndValidate(c, g, nil)
 	if err != nil {
 		fmt.Println("INCONCLUSIVE:", err)
 		return core.ExitInconclusive
 	}
 	code := core.ExitOK
+	seen := map[string]bool{}
 	for _, f := range out.Findings {
-		if _, listed := known[f.Tag]; f.Tag != "" && listed {
-			fmt.Printf("reproduced %s (known finding %s)\n", f.Monitor, f.Tag)
+		key := f.Kind + f.Monitor
+		if seen[key] {
 			continue
 		}
-		fmt.Printf("reproduced %s on the %s side after %v\n", f.Monitor, f.Side, opsText(rf.Alphabet, f.Hist))
-		code = core.ExitViolation
+		seen[key] = true
+		switch f.Kind {
+		case "violation":
+			fmt.Printf("reproduced %s on the application side after %v\n", f.Monitor, opsText(rf.Alphabet, f.Hist))
+			code = core.ExitViolation
+		case "failed":
+			fmt.Printf("OBSERVATION gov: reproduced: monitor %s FAILED after %v\n", f.Monitor, opsText(rf.Alphabet, f.Hist))
+		default:
+			fmt.Printf("OBSERVATION gov: reproduced: %s after %v\n", f.Monitor, opsText(rf.Alphabet, f.Hist))
+		}
 	}
 	for _, d := range out.Drift {
 		fmt.Println("DRIFT", d)
 	}
-	if code == core.ExitOK {
-		fmt.Printf("not reproduced: no unexplained monitor failure on history %v (%d lines validated)\n", rf.Finding.Hist, out.Lines)
-	} else {
+	if len(seen) == 0 {
+		fmt.Printf("not reproduced: no monitor failure and no observation on history %v (%d lines validated)\n", rf.Finding.Hist, out.Lines)
+	}
+	if code == core.ExitViolation {
 		fmt.Printf("VIOLATION property=%s replay=%s\n", rf.Prop, c.Replay)
 	}
 	return code
